@@ -11,7 +11,8 @@ from .props_fixed import spec_abbr, spec_name
 
 THEOREMS = {'C07': ['Cctz.C07.int_roundtrip', 'Cctz.C07.field2_roundtrip', 'Cctz.C07.offset_roundtrip', 'Cctz.C07.offset_24h_counterexample',
                     'Cctz.C07.fraction_roundtrip', 'Cctz.C07.percent_s_roundtrip'],
-            'C08': [],
+            'C08': ['Cctz.C08.constants', 'Cctz.C08.format64', 'Cctz.C08.format64_year4', 'Cctz.C08.format02d', 'Cctz.C08.formatOffset', 'Cctz.C08.literal',
+                    'Cctz.C08.percent', 'Cctz.C08.rfc3339', 'Cctz.C08.format_safe'],
             'C09': ['Cctz.C09.constants', 'Cctz.C09.parseInt_spec', 'Cctz.C09.parseInt_counterexample', 'Cctz.C09.field_ranges', 'Cctz.C09.subseconds',
                     'Cctz.C09.offset', 'Cctz.C09.percent_s', 'Cctz.C09.parse_safe']}
 hx = Z.hx
@@ -197,8 +198,14 @@ def gen_malformed(rng):
     return b''.join(parts)
 
 
+# instants whose civil year sits at the saturation boundaries of tm_year (year - 1900 vs INT_MAX / INT_MIN)
+TM_YEAR_EDGES = [C.day_num(y, 6, 15) * 86400 + 43200 for y in (2147483647, 2147483648, 2147483747, 2147485546, 2147485547, 2147485548, 2147485549,
+                                                                 -2147483648, -2147483649, -2147481748, -2147481749, -2147481747, 1899, 1900, 1901, 0, -1)]
+
+
 def pick_instant(rng):
     r = rng.random()
+    if r < 0.06: return rng.choice(TM_YEAR_EDGES) + rng.randrange(-40000000, 40000000)
     if r < 0.4: return rng.randrange(-2**32, 2**33)
     if r < 0.5: return rng.choice([0, -1, 1, I64MIN, I64MAX, I64MIN + 1, I64MAX - 1, -62135596800, -62167219200, 253402300799, 253402300800, -2**59, 2**59])
     if r < 0.7: return rng.randrange(-2**45, 2**45)
@@ -355,6 +362,13 @@ FIELD_FORMS = [
     ('%d.%m.%Y %H:%M', lambda f: '%02d.%02d.%s %02d:%02d' % (f[2], f[1], year_str(f[0]), f[3], f[4])),
     ('%H:%M:%S %d/%m/%Y', lambda f: '%02d:%02d:%02d %02d/%02d/%s' % (f[3], f[4], f[5], f[2], f[1], year_str(f[0]))),
 ]
+# near misses of the fractional-second readers: a decimal point without digits, a fraction without seconds, …
+FRAC_CASES = [(b'%E*S', b'05.'), (b'%E3S', b'05.'), (b'%H:%M:%E*S', b'20:21:05.'), (b'%Y-%m-%d%ET%H:%M:%E*S%Ez', b'2014-02-12T20:21:05.+00:00'),
+              (b'%Y-%m-%d%ET%H:%M:%E*S%Ez', b'2014-02-12T20:21:05.Z'), (b'%E*S', b'05.5'), (b'%E*S', b'05'), (b'%E*S', b'.5'), (b'%E*S', b'5.5'), (b'%E*f', b''),
+              (b'%E*f', b'.'), (b'%E*f', b'123'), (b'%S.%E*f', b'05.'), (b'%S.%E*f', b'05.0'), (b'%E0S', b'05.'), (b'%E15S', b'59.999999999999999'), (b'%E15S', b'59.9999999999999999'),
+              (b'%E*S', b'60.5'), (b'%E*S', b'61'), (b'%E*S', b'05.x'), (b'%E*S', b'05..5'), (b'%E2f', b'5x'), (b'%E*S %Ez', b'05. +01:00'), (b'%H%E*S', b'1205.'),
+              (b'%E*z', b'+01:00:'), (b'%E*z', b'+01:'), (b'%Ez', b'+01:0'), (b'%z', b'+010'), (b'%Ez', b'+24:00'), (b'%Ez', b'-00:00:60'), (b'%E4Y', b'12345'), (b'%E4Y', b'-99'),
+              (b'%E4Y', b'-0999'), (b'%Y', b'-0'), (b'%m', b'1'), (b'%m', b'-1'), (b'%d', b' 5'), (b'%e', b' 5'), (b'%e', b'  5'), (b'%e', b' 15'), (b'%H', b'24'), (b'%M', b'60'), (b'%S', b'60'), (b'%S', b'61')]
 
 
 def run_C09(chk):
@@ -431,6 +445,21 @@ def run_C09(chk):
             b.append('parse %s %s %s' % (zid, hx(b'%s'), hx(str(sv).encode()))); m.append(('must-fail', sv, False, 0, b'%s', str(sv).encode()))
         for ytxt in (b'9223372036854775807-12-31 23:59:59', b'-9223372036854775808-01-01 00:00:00', b'292277026596-12-04 15:30:07', b'292277026596-12-05 00:00:00', b'-292277022657-01-27 08:29:52'):
             b.append('parse %s %s %s' % (zid, hx(b'%Y-%m-%d %H:%M:%S %Ez'), hx(ytxt + b' +00:00'))); m.append(('extreme', ytxt, True, 0, b'', ytxt))
+        for fb, ib in FRAC_CASES:
+            b.append('parse %s %s %s' % (zid, hx(fb), hx(ib))); m.append(('random', None, False, 0, fb, ib))
+        for _ in range(per // 5):
+            # fractional seconds: valid text and single-character deletions of it
+            f = C.valid_fields(rng, year=rng.randrange(1, 9999))
+            digs = rng.randrange(0, 19)
+            frac = ''.join(rng.choice('0123456789') for _ in range(digs))
+            fb = rng.choice([b'%Y-%m-%d %H:%M:%E*S', b'%Y-%m-%dT%H:%M:%E3S%Ez', b'%H:%M:%S.%E*f %d/%m/%Y'])
+            sec = '%02d' % f[5] + ('.' + frac if (digs or b'.%E' in fb) else '')
+            if fb.startswith(b'%H'): text = '%02d:%02d:%s %02d/%02d/%s' % (f[3], f[4], sec, f[2], f[1], year_str(f[0]))
+            else: text = '%s-%02d-%02d%s%02d:%02d:%s%s' % (year_str(f[0]), f[1], f[2], 'T' if b'T' in fb else ' ', f[3], f[4], sec, '+00:00' if b'%Ez' in fb else '')
+            tb = bytearray(text.encode())
+            if rng.random() < 0.6 and tb:
+                k = rng.randrange(len(tb)); del tb[k:k + rng.choice([1, 1, 2, digs + 1])]
+            b.append('parse %s %s %s' % (zid, hx(fb), hx(bytes(tb)))); m.append(('random', None, False, 0, fb, bytes(tb)))
         for _ in range(per // 10):
             fb = bytes(rng.choice(b'%YmdHMSzEf*:T4 -0123456789s') for _ in range(rng.randrange(1, 10)))
             ib = bytes(rng.choice(b'0123456789-+:. TZz') for _ in range(rng.randrange(0, 14)))
@@ -438,14 +467,21 @@ def run_C09(chk):
         blocks.append((zn, orc, b)); meta.append(m)
     mo, io = run_fmt_blocks(chk, exe, [b for _, _, b in blocks], 'parse')
     good = 0
-    for (zn, orc, b), m, out in zip(blocks, meta, io):
-        for l, mm, o in zip(b[1:], m[1:], out[1:]):
+    for (zn, orc, b), m, out, mout in zip(blocks, meta, io, mo):
+        for l, mm, o, mod in zip(b[1:], m[1:], out[1:], mout[1:]):
             if o.startswith('UB') or o.startswith('CRASH'):
                 chk.report('parse(%r, %r) is undefined behaviour: %s' % (mm[4], mm[5], o), {'op': l, 'implementation': o}, sig='parse %s' % site_sig(o)); continue
             kind, fields, use_off, off, fmt_b, text_b = mm
             chk.count('inputs:' + kind)
             if kind in ('random', 'edited'):
-                good += 1; continue
+                # no independent expectation for unstructured input: the model (whose acceptance conditions are the
+                # proved ones) is the reference; a deviation is reported with the input as the replay
+                if canon(o) != mod:
+                    what = 'accepts input that the documented rules reject' if (o.startswith('ok') and mod == 'fail') else 'deviates from the documented rules'
+                    chk.report('parse(%r, %r) = `%s` %s (the model gives `%s`)' % (fmt_b, text_b, o, what, mod), {'op': l, 'implementation': o, 'model': mod}, sig='parse deviates')
+                else:
+                    good += 1
+                continue
             if kind in ('out-of-range', 'must-fail'):
                 if o != 'fail':
                     chk.report('parse(%r, %r) = `%s` although a field is outside its documented range / the date does not exist / the value does not fit' % (fmt_b, text_b, o), {'op': l, 'implementation': o}, sig='parse accepts out-of-range')
